@@ -15,6 +15,7 @@
 import Sbepp.Gen.Accept
 import Sbepp.Lemmas.C07Literals
 import Sbepp.Lemmas.C07Accept
+import Sbepp.Lemmas.C07Canon
 import Sbepp.Lemmas.C07Scope
 import Sbepp.Lemmas.C07Witness
 import Sbepp.Lemmas.C07WitnessScope
@@ -118,10 +119,25 @@ theorem float_header_free (s : SchemaDef) (ha : Accepted s) : headerTypeProblems
   headerTypeProblems_nil s (acceptedB_parts s ha).2.2.2.2.2.1
 
 /-- **duplicate_case_free**: in an accepted schema the generated `switch` over an enum has no two `case` labels
-    of the same value.  (Acceptance compares the enumerators as numbers / characters; the validator compares
-    their canonical texts — leading zeros stripped, `-0` = `0` — see CHECKS.) -/
+    of the same value.  (Acceptance compares the enumerators as numbers / characters; `enum_rule_is_validators`
+    shows that this is what the validator's comparison of canonical texts gives.) -/
 theorem duplicate_case_free (s : SchemaDef) (ha : Accepted s) : duplicateCaseProblems s = [] :=
   duplicateCaseProblems_nil s (acceptedB_parts s ha).2.2.2.2.2.2.2
+
+/-- **enum_rule_is_validators**: the rule of c7e26c2 in the validator's own formulation — no two valid values of
+    an enum have the same key, `Spec.Rules.repeats (enumValueKey prim) [] vs = []`, the key being the character
+    for `char` and otherwise the text without superfluous leading zeros, `-0` = `0` — implies for validated
+    values (one character; a text `from_chars` accepts in range) that no two denote the same number / character:
+    `canonInt` of a text is THE decimal representation of its value (`stripZeros_canonical`,
+    `canonInt_of_value`) -/
+theorem enum_rule_is_validators (pn : String) (p : Prim) (vs : List ValidValue)
+    (hv : ∀ v ∈ vs, enumValidated pn p v = true)
+    (hk : Spec.Rules.repeats (Spec.Rules.enumValueKey pn) [] vs = []) :
+    dupInt (vs.filterMap (fun v => enumeratorValue (pn == "char") p v.value)) = false :=
+  enum_values_distinct_of_keys rendering_flags.1 rendering_flags.2.2.1 pn p vs hv hk
+
+example : Spec.Rules.canonInt "-000".toList = "0".toList ∧ Spec.Rules.canonInt "007".toList = "7".toList ∧
+    Spec.Rules.canonInt "-010".toList = "-10".toList := by decide +kernel
 
 /-- the former defect witnesses — template id 70000 with a `uint16` header member, a group counting in `float`,
     enumerators `1` and `01` — are still predicted ill-formed by the model and are rejected by the acceptance
